@@ -1132,9 +1132,9 @@ pub(crate) fn c_zst<const N: usize>() {
            { let mut d = b.drain((lo, hi)); if nd::any_bool() { let r = d.next(); if let Some(z) = r { core::mem::forget(z); if e > a { dropped = e - a - 1; } } else { dropped = 0; } } else { dropped = e - a; } }
            len = len0 - (e - a); }
     check!(wf(&b) && b.len() == len && b.is_empty() == (len == 0) && b.is_full() == (len == N), "[C19] ZST: length / emptiness / fullness do not follow the sequence semantics");
-    check!(zdrops() == dropped, "[C19] ZST: number of destructor runs differs from the number of elements removed and not returned");
+    check!(zdrops() == dropped, "[C03,C19] ZST: number of destructor runs differs from the number of elements removed and not returned");
     unsafe { core::ptr::drop_in_place(&mut b); }
-    check!(zdrops() == dropped + len, "[C19] ZST: dropping the buffer does not destroy exactly the remaining elements");
+    check!(zdrops() == dropped + len, "[C03,C19] ZST: dropping the buffer does not destroy exactly the remaining elements");
     nd::reached();
     core::mem::forget(b);
 }
@@ -1297,4 +1297,20 @@ pub(crate) fn c_ops_plain<const N: usize>() {
     check!(new.eq(&m) && b.len() == m.len, "[C01] operation on elements without drop glue: contents differ from the capped-deque model");
     nd::reached();
     core::mem::forget(b);
+}
+
+// ----- comparison with arrays of every length (C13): [U; M], &[U; M], &mut [U; M] for M below, at and above len ---------------
+
+pub(crate) fn c_eq_array<const N: usize, const M: usize>() {
+    let a = any_u8buf::<N>();
+    let sa = bytes_of(&a);
+    let mut arr = [0u8; M];
+    let mut i = 0; while i < M { arr[i] = nd::any_u8(); i += 1; }
+    let mut sw = Seq::new(); let mut i = 0; while i < M { sw.push(arr[i]); i += 1; }
+    let same = sa.eq(&sw);
+    check!((a == arr) == same, "[C13] buffer == [U; M] differs from equality of the element sequences");
+    check!((a == &arr) == same, "[C13] buffer == &[U; M] differs from equality of the element sequences");
+    let mut arr2 = arr;
+    { let am: &mut [u8; M] = &mut arr2; check!((a == am) == same, "[C13] buffer == &mut [U; M] differs from equality of the element sequences"); }
+    nd::reached();
 }
